@@ -61,6 +61,12 @@ type stepIn struct {
 	Files  []fileIn        `json:"files"` // count files that appear before this run
 	Start  string          `json:"start"` // RFC3339 start time of this run
 	Fresh  bool            `json:"fresh"` // run upload.Run in a fresh process instead of this one
+	// Raced: another uploader wins the creation of local.<week>.json for the
+	// weeks whose files arrive in this step: it appears after this run's
+	// existence checks and before its own exclusive create.  Emulated without
+	// hooks by a dangling symbolic link of that name: os.Stat reports "does
+	// not exist", an exclusive create (O_EXCL, link) reports "exists".
+	Raced bool `json:"raced"`
 }
 
 type caseIn struct {
@@ -309,6 +315,13 @@ func runStep(c *caseIn, k int, dir string, px *proxies, srv *server, xr *xReader
 		rec["infra"] = "writing count files: " + err.Error()
 		return rec
 	}
+	if st.Raced {
+		for _, f := range st.Files {
+			if len(f.End) >= 10 {
+				os.Symlink(filepath.Join(dir, "no-such-dir", "lost"), filepath.Join(dir, "local", "local."+f.End[:10]+".json"))
+			}
+		}
+	}
 	var env []string
 	var err error
 	if c.OneProxy {
@@ -354,6 +367,7 @@ func runStep(c *caseIn, k int, dir string, px *proxies, srv *server, xr *xReader
 	rec["local"] = readJSONDir(filepath.Join(dir, "local"))
 	rec["upload"] = readJSONDir(filepath.Join(dir, "upload"))
 	rec["countfiles"] = listSuffix(filepath.Join(dir, "local"), ".v1.count")
+	rec["localnames"] = listSuffix(filepath.Join(dir, "local"), "")
 	return rec
 }
 
